@@ -26,8 +26,20 @@ DESC = {
     "C10-B": ("method check uses `.match` instead of `.search`", "control character not at the start of the method"),
     "C11-A": ("`content_length = len(mv)` for buffers", "multi-byte item buffers"),
     "C11-B": ("`body_pos` not passed on the retry recursion", "file body at a non-zero offset + connection-error retry"),
-    "C12-A": ("see seeded/C12-A", "-"),
-    "C12-B": ("see seeded/C12-B", "-"),
+    "C12-A": ("`read(amt)` returns freshly decoded data directly when it is exactly `amt` long, bypassing the buffer", "compressed body, earlier partial read left a remainder, next raw read decodes to exactly n bytes (reorder)"),
+    "C12-B": ("`_handle_chunk` collapsed: `amt == chunk_left` falls into the partial branch", "`stream(n)`/`read_chunked(n)` where a non-final chunk ends exactly on a multiple of n"),
+    "C01-C": ("`drain_conn()` closes instead of draining when the response has `will_close`", "redirect / status retry whose intermediate response is Connection: close, `block=True`, `preload_content=False`"),
+    "C02-C": ("placeholder for a failed attempt inserted at the bottom of the queue without notify", "`block=True`, a thread already waiting, another thread's final attempt fails (retries off)"),
+    "C04-C": ("`urlopen` closes the connection before classifying the error", "behind a proxy: read timeout / garbage are reported as ProxyError and charged to `other`"),
+    "C05-C": ("retry recursion of `urlopen` no longer forwards `redirect`", "the attempt that receives the 3xx is itself a retry after a connection error"),
+    "C06-C": ("default set spelled lower-case + lower-casing skipped for frozensets", "custom `remove_headers_on_redirect` given as a frozenset with mixed-case names"),
+    "C07-C": ("pyOpenSSL: CERT_REQUIRED maps to VERIFY_PEER only, inverse table collapses", "pyOpenSSL backend + cert_reqs OPTIONAL: reported verified, no warning"),
+    "C09-C": ("`_tunnel_host` derived from the bracket-stripped host", "IPv6 literal destination through a tunnel: `CONNECT ::1:8443`"),
+    "C13-C": ("chunk-size line parsed with an unanchored regex", "valid hex digits followed by junk (`5X\\n`) read through urllib3's own chunk parser"),
+    "C15-A": ("final `rstrip('.')` of the TLS server name removed", "trailing-dot host through a CONNECT tunnel"),
+    "C15-B": ("origin-form test requires `parsed_url.host is None`", "path that starts with `//` after dot-segment removal"),
+    "C17-C": ("`clear()` disposes inside the lock", "container with a dispose callback, `clear()` on a non-empty container"),
+    "C18-C": ("`_merge_pool_kwargs` returns the manager's own dict when there is no override", "https-only defaults, then an http pool (SSL keywords popped from the defaults)"),
     "C13-A": ("`read1` returns early when the response is closed", "incomplete multi-block zstd stream with satisfied Content-Length, read1-only loop"),
     "C13-B": ("gzip decoder enters OTHER_MEMBERS before the unused-data check", "corrupt gzip body read in more than one piece"),
     "C14-A": ("`normalize_uri = scheme in _NORMALIZABLE_SCHEMES`", "upper-case scheme"),
